@@ -286,6 +286,12 @@ func c01Run(cs *c01Case) (msg string, compiled, executed bool) {
 		}
 		set.CleanCache(cs.Entry)
 		set.CleanCache()
+		// ... and after it was emptied
+		tpl3, err3 := set.FromCache(cs.Entry)
+		if (err == nil) != (err3 == nil) || (err3 == nil && tpl3 == nil) {
+			return fmt.Sprintf("FromCache after CleanCache(): first (err=%v), now (tpl=%v err=%v)\n src=%q", err, tpl3 != nil, err3, src), false, false
+		}
+		set.CleanCache()
 	case "FromString":
 		tpl, err = set.FromString(src)
 	case "FromBytes":
@@ -451,7 +457,7 @@ func c01Expr(t *rapid.T, depth int) string {
 func c01Tpl(t *rapid.T, depth int) string {
 	var sb strings.Builder
 	for i := drawInt(t, 1, 3, "n"); i > 0; i-- {
-		k := drawInt(t, 0, 20, "kind")
+		k := drawInt(t, 0, 21, "kind")
 		if depth <= 0 && k > 3 {
 			k = k % 4
 		}
@@ -508,6 +514,14 @@ func c01Tpl(t *rapid.T, depth int) string {
 			// a helper file that exports macros, pulled in as a document: its macro names may clash with context keys
 			sb.WriteString(pick(t, "clash", []string{`{% include "/macros.tpl" %}`, `{% set imp_row = 1 %}{% include "/macros.tpl" %}`, `{% ssi "/macros.tpl" parsed %}`, `{% include incname with imp_row=` + e() + ` %}`,
 				`{% with imp_box=1 %}{% include "/macros.tpl" only %}{% endwith %}`, `{% include "/macros.tpl" with imp_box=` + e() + ` only %}`}))
+		case 21:
+			// named cycles that list each other (and themselves), advanced through their names
+			a, b := pick(t, "mca", []string{"a", "q"}), pick(t, "mcb", []string{"b", "a", "s"})
+			sb.WriteString(`{% cycle "1" ` + b + ` as ` + a + pick(t, "mcs1", []string{"", " silent"}) + ` %}{% cycle "2" ` + a + ` as ` + b + pick(t, "mcs2", []string{"", " silent"}) + ` %}`)
+			for j := drawInt(t, 1, 4, "mcn"); j > 0; j-- {
+				sb.WriteString(`{% cycle ` + pick(t, "mcadv", []string{a, b}) + ` %}`)
+			}
+			sb.WriteString(`{{ ` + a + ` }}{{ ` + b + ` }}`)
 		case 19:
 			sb.WriteString(`{% import "/macros.tpl" imp_box, imp_row as ` + pick(t, "al", []string{"row", "forloop", "imp_box", "s"}) + ` %}{{ imp_box(` + e() + `) }}`)
 		}
